@@ -534,3 +534,78 @@ def rule_module_lifetime(repo: Repo, chk: Check, rule: str):
                   "the unbounded lifetime is assigned " + (f"only for the module whose name satisfies {by_name}" if by_name else "without testing that a writer's scope is a Module")
                   + ": globals of library modules get line intervals and two of them (or a global and a function local) can share a register",
                   {"guards": [norm(tst) + ("" if p_ else "=False") for tst, p_ in atoms]}, f"{t.path}:{st.lineno} in IC10Register.lifetime")
+
+
+# ------------------------------------------------------------------ symbolic return paths
+def _sub(e, env):
+    from ..inline import _clone
+
+    class S_(ast.NodeTransformer):
+        def visit_Name(self, n):
+            if isinstance(n.ctx, ast.Load) and n.id in env:
+                return _clone(env[n.id])
+            return n
+    return S_().visit(_clone(e))
+
+
+def return_paths(fn, max_paths=64):
+    """[(conds, value)] for every syntactic path of *fn* to a return: conds is a list of (expr, polarity) with local
+    names replaced by their defining expressions, value the returned expression (None for a bare return / falling
+    off the end).  if/elif/else, early returns and conditional expressions are all normalised to paths.  Loops, try and
+    with blocks are not entered: names they assign become unknown."""
+    out = []
+
+    def split_value(conds, v):
+        if isinstance(v, ast.IfExp):
+            split_value(conds + [(v.test, True)], v.body)
+            split_value(conds + [(v.test, False)], v.orelse)
+        else:
+            out.append((conds, v))
+
+    def walk(stmts, env, conds):
+        for i, st in enumerate(stmts):
+            if len(out) > max_paths:
+                raise AnalysisError(f"{fn.name}: too many paths")
+            if isinstance(st, ast.Return):
+                split_value(conds, _sub(st.value, env) if st.value is not None else None)
+                return
+            if isinstance(st, ast.Raise):
+                return
+            if isinstance(st, ast.If):
+                test = _sub(st.test, env)
+                rest = stmts[i + 1:]
+                walk(list(st.body) + rest, dict(env), conds + [(test, True)])
+                walk(list(st.orelse) + rest, dict(env), conds + [(test, False)])
+                return
+            if isinstance(st, ast.Assign) and len(st.targets) == 1 and isinstance(st.targets[0], ast.Name):
+                env[st.targets[0].id] = _sub(st.value, env)
+            elif isinstance(st, ast.AnnAssign) and isinstance(st.target, ast.Name) and st.value is not None:
+                env[st.target.id] = _sub(st.value, env)
+            elif isinstance(st, ast.AugAssign) and isinstance(st.target, ast.Name):
+                cur = env.get(st.target.id, ast.Name(id=st.target.id, ctx=ast.Load()))
+                env[st.target.id] = ast.BinOp(left=cur, op=st.op, right=_sub(st.value, env))
+            elif isinstance(st, (ast.For, ast.While, ast.Try, ast.With)):
+                for n in ast.walk(st):
+                    if isinstance(n, ast.Name) and isinstance(n.ctx, ast.Store):
+                        env.pop(n.id, None)
+                        env[n.id] = ast.Name(id=f"<{n.id} after {type(st).__name__.lower()}>", ctx=ast.Load())
+        out.append((conds, None))
+
+    walk(list(fn.body), {}, [])
+    return out
+
+
+def cond_polarity(conds, pred):
+    """Evaluate the predicate-recognising function *pred* (expr -> True/False/None meaning 'expr says P holds / does not /
+    is unrelated') over a path's conditions: returns True / False / None (unconstrained)."""
+    val = None
+    for e, pol in conds:
+        for t, p in decompose(e, pol):
+            r = pred(t)
+            if r is None:
+                continue
+            v = r if p else (not r)
+            if val is not None and v != val:
+                return "infeasible"
+            val = v
+    return val
